@@ -93,8 +93,34 @@ def run(ctx):
     chk.rule("C10.b", "MPT destructively-read value is emitted or proven zero: in State::flush every path from counter.flush() that skips write_counter is guarded by value == 0; idle bookkeeping is keyed by the full Key", floor=3)
     chk.rule("C10.c", "DOC timestamp vs documentation: the AggregationMode variant documented 'not sent with a timestamp' maps to None in get_aggregation_timestamp, the one documented 'sent with a timestamp' to Some", floor=2)
     chk.rule("C10.d", "TBL+FWD routing: histograms_as_distributions selects write_distribution on its true edge; the global prefix is dropped exactly for telemetry names; is_length_prefixed: Udp->false, Unix->true, Unixgram->false and feeds PayloadWriter::new; the stream transport uses write_all, datagram transports send; histograms flush through clear_with/consume; gauges/counters are written with the flushed value", floor=8)
+    chk.rule("C10.f", "OWN configuration knobs: no field of DogStatsDBuilder is written by two different by-value builder methods (setting the reservoir size does not switch sampling on, ...)", floor=1)
     chk.trust("std atomics", "UnixStream::write_all", "UdpSocket/UnixDatagram::send")
     chk.residue.append("the multi-word races of AtomicCounter (a flush between last.store and current.store in the first absolute(); 'zero sent exactly once' under races) are NOT decided: no sound structural rule separates them from benign multi-atomic code")
+
+    # ---------------- C10.f
+    BLD = f"{D}::builder::DogStatsDBuilder"
+    writers = {}
+    n_setters = 0
+    for f in d.fns:
+        if strip_generics(f.j.get("impl_self", "")) != BLD or f.dk != "AssocFn" or "::tests::" in f.path or not f.j.get("mir"):
+            continue
+        b_ = f.body
+        if b_.argc < 1 or "DogStatsDBuilder" not in b_.local_ty(1) or b_.local_ty(1).lstrip().startswith("&"):
+            continue
+        from props.common import pointers_to
+
+        roots = {1} | pointers_to(b_, 1)
+        flds = {next((e.get("f") for e in (st["p"].get("pr") or []) if isinstance(e, dict) and "f" in e), None) for i, k, st in b_.stmts() if st["k"] == "assign" and st["p"]["l"] in roots and st["p"].get("pr")}
+        flds.discard(None)
+        if flds:
+            n_setters += 1
+        for fl in flds:
+            writers.setdefault(fl, set()).add(f.name)
+    shared = {fl: sorted(ws) for fl, ws in writers.items() if len(ws) > 1}
+    if n_setters == 0:
+        chk.unrecognised("C10.f", "<anchor> DogStatsDBuilder setters", "no by-value builder method writing a field found")
+    else:
+        chk.ob("C10.f", f"{BLD} [one setter per knob]", not shared, f"{n_setters} setters, {len(writers)} fields, none written by two setters" if not shared else f"field(s) {shared} are written by more than one builder method: one knob silently changes another (e.g. a reservoir size switching sampling on discards values and adds @rate although sampling was configured off)", "metrics-exporter-dogstatsd/src/builder.rs")
 
     # ---------------- C10.a
     _field_roles(d)
